@@ -309,6 +309,11 @@ func (b *Builder) epsilonClosureOnePass(root nfa.StateID) ([]closureEntry, bool,
 // stackPush adds an NFA state to the DFS stack.
 // Returns error if state already visited (indicates non-one-pass).
 func (b *Builder) stackPush(nfaID nfa.StateID, slots uint32, endOnly bool) error {
+	// An epsilon edge without a target is a dead end (the compiler's fragment
+	// for an empty character class ends in one): nothing to explore.
+	if nfaID == nfa.InvalidState {
+		return nil
+	}
 	// Check if already visited via epsilon path
 	if b.seen.Contains(uint32(nfaID)) {
 		// Multiple epsilon paths to same state = NOT one-pass
